@@ -32,7 +32,7 @@ macro_rules! stats_struct {
 }
 stats_struct!(
     bodies, applies, deliveries, postponed, max_postponed_one_target, nested_replay, skipped_dead, skipped_dead_postponed, optional_taken, optional_skipped, polled_events, polled_in_tree, polled_reactions, payloads, payload_zero_listeners, payload_abort_release, doomed_insts, once_fired, once_retrigger_after_fire, revokes_applied, revoke_mid_dispatch, kills, kill_self, err_returns, excl_bodies, registrations, reg_dead_entity, slot_respawn, max_depth, roots, multi_kind_same_tree, sibling_reorder, frames, guaranteed_gc, guaranteed_poll, a1_ambiguous, ewr_bodies, ewr_nodata_ok, inserts_dead_at_apply, setifneq_equal, setifneq_diff, removal_reinsert_removal, sig_zero, entity_recursive_despawn, fifo_pairs_checked, sys_calls, reactors_per_key_ge7,
-    probes, ev_total, replayed, sys_recursive, acc_ops, single_acc, app_setup_again, bulk_collected, max_bulk, ewr_readd, res_removed, res_trigger_while_absent, excl_flushed_in_body, sig_zero_during_gc, sig_moved_into_entity, collected_observed, sig_zero_in_tree, payload_owned_signal_released, sys_cleared, dw_bodies, dw_self_postponed, dw_self_ran, polled_after_last_poll, sys_dw_calls, excl_flushed_mid_trigger, trigger_raced_pending, rc_inst_released, rc_scratch, sys_reinserted, gc_takes, max_gc_nesting, gc_nested_deferred, reactor_bulk, max_reactor_bulk
+    probes, ev_total, replayed, sys_recursive, acc_ops, single_acc, app_setup_again, bulk_collected, max_bulk, ewr_readd, res_removed, res_trigger_while_absent, excl_flushed_in_body, sig_zero_during_gc, sig_moved_into_entity, collected_observed, sig_zero_in_tree, payload_owned_signal_released, sys_cleared, dw_bodies, dw_self_postponed, dw_self_ran, polled_after_last_poll, sys_dw_calls, excl_flushed_mid_trigger, trigger_raced_pending, rc_inst_released, rc_scratch, sys_reinserted, gc_takes, max_gc_nesting, gc_nested_deferred, reactor_bulk, max_reactor_bulk, reactor_strip
 );
 
 #[derive(Clone, Debug)]
@@ -2324,11 +2324,28 @@ impl<'a> Checker<'a>
                 if !self.in_direct_step || self.tree_depth > 0 { return bail("bulk reactor release inside a batch or tree (not generated)"); }
                 if self.bulk_released > 0 || self.bulk_held > 0 || !self.sys.doomed.is_empty() { return bail("bulk reactor release while other signals await their collection (not generated)"); }
                 self.guaranteed_gc();
-                let Some(Ev::ReactorBulk { uid, n: n2, leaked }) = self.peek()?.cloned() else { return self.unexpected("bulk reactor release observation"); };
+                if *mode >= 2 && (self.polled.iter().any(|p| !p.closed) || !self.wq.is_empty()) { return bail("strip variant of the bulk reactor release while removals / despawns await their poll (not generated)"); }
+                let Some(Ev::ReactorBulk { uid, n: n2, leaked, runs }) = self.peek()?.cloned() else { return self.unexpected("bulk reactor release observation"); };
                 if uid != u || n2 != *n as u32 { return self.unexpected("bulk reactor release observation"); }
                 self.advance()?;
                 self.stats.reactor_bulk += 1;
                 if *n as u64 > self.stats.max_reactor_bulk { self.stats.max_reactor_bulk = *n as u64; }
+                if *mode >= 2
+                {
+                    // the watched entity was stripped of its components while alive, polled, despawned, polled, collected. Whether
+                    // the reactors run at the strip (the pinned tree) or at the despawn is left open; they must not run twice,
+                    // and once the watched entity is gone nothing may keep them alive.
+                    self.stats.reactor_strip += 1;
+                    let once = mode % 2 == 1;
+                    if runs > *n as u32 && once { fail!(self, "C08", "polled-spurious", &["C15"], "{n} one-off reactors watching the despawn of one entity ran {runs} times in total (the entity lost its components while alive, then was despawned): a despawn reactor fires at most once per watched entity"); }
+                    if runs > *n as u32 { fail!(self, "C08", "polled-spurious", &["C07"], "{n} reactors watching the despawn of one entity ran {runs} times in total (the entity lost its components while alive, then was despawned): a despawn reactor fires at most once per watched entity"); }
+                    if leaked > 0
+                    {
+                        if once { fail!(self, "C15", "once-entity-leaked", &["C07", "C08"], "{leaked} of {n} one-off reactors watching the despawn of an entity (or entities they own) still exist after that entity lost its components while alive, was despawned, polled and a garbage collection ran; they ran {runs} times"); }
+                        fail!(self, "C07", "reactor-leaked", &["C08", "C15"], "{leaked} of {n} ref-counted reactors watching the despawn of an entity still exist after that entity lost its components while alive, was despawned, polled and a garbage collection ran; they ran {runs} times");
+                    }
+                    return Ok(());
+                }
                 let how = if mode % 2 == 0 { "the entity they watched was despawned" } else { "they were revoked in one batch" };
                 if leaked > 0 { fail!(self, "C07", "reactor-leaked", &["C10", "C15"], "{leaked} of {n} ref-counted reactors still exist after {how} and a garbage collection ran"); }
             }
